@@ -81,6 +81,7 @@ def run_fuse(src_path, ref_path, out_path, model='gain-blk-offset', kernel_shape
             res.tags = ds.tags()
             res.band_tags = [ds.tags(i + 1) for i in range(ds.count)]
             res.descriptions = ds.descriptions
+            res.colorinterp = [c.name for c in ds.colorinterp]
         if param_path:
             with rio.open(param_path) as ds:
                 res.param = ds.read()
@@ -110,7 +111,8 @@ def block_mem_for(n_halvings, proc_h, proc_w, src_px, ref_px, proc_ref):
     """max_block_mem (MB) that makes _auto_block_shape halve the processing window `n_halvings` times"""
     if n_halvings == 0:
         return 100
-    src_area, ref_area = src_px * src_px, ref_px * ref_px
+    area = lambda p: p[0] * p[1] if isinstance(p, (tuple, list)) else p * p   # a pixel size, or (px, py) for non-square pixels
+    src_area, ref_area = area(src_px), area(ref_px)
     if proc_ref:
         mem_scale = src_area / ref_area if ref_area > src_area else 1.
     else:
